@@ -14,7 +14,8 @@ struct PointRec {
 enum : uint8_t {
   PF_PREEMPT = 1,   // alternative != 0 switches away from a thread that could continue: costs 1
   PF_LASTCOST = 2,  // the last alternative (continue a yielding thread) costs 1
-  PF_DATA = 4       // data choice (free)
+  PF_DATA = 4,      // data choice (free)
+  PF_COSTALL = 8    // every alternative other than 0 costs 1 (store-buffer mode: delay this store)
 };
 constexpr uint32_t MAXPTS = 1u << 18;
 enum : int32_t { RS_IDLE = 0, RS_RUNNING = 1, RS_DONE = 2, RS_FAILED = 3, RS_EXPECTED_TERMINATE = 4 };
@@ -42,6 +43,8 @@ struct RunConfig {
   int bound = 2;
   bool use_cache = true;
   uint64_t max_steps = 200000;
+  bool spurious = false; // a condition_variable wait may return without a notification (one unit of budget)
+  bool tso = false;     // store-buffer mode: a non-seq_cst store may stay invisible to other threads (one unit of budget)
 };
 
 // shared HB-prefix cache
